@@ -7,6 +7,7 @@ import (
 	"go/token"
 	"go/types"
 	"math/big"
+	"reflect"
 	"regexp"
 	"sort"
 	"strings"
@@ -5806,6 +5807,38 @@ func ruleDefinitionsKeyedByIdentity(c *core.Ctx) {
 		var bareName func(e ast.Expr, depth int) bool
 		bareName = func(e ast.Expr, depth int) bool {
 			switch x := ast.Unparen(e).(type) {
+			case *ast.CallExpr:
+				// a helper of the package that builds the key from the bare name of a definition it is given
+				// (`instantiationName(meta)` = meta.Name + "<" + args + ">"), without the namespace
+				f := core.Callee(info, x)
+				if f == nil || f.Pkg() != p.Types {
+					return false
+				}
+				givenDef := false
+				for _, a := range x.Args {
+					if isDefinition(a) {
+						givenDef = true
+					}
+				}
+				fd := c.Decl(f)
+				if !givenDef || fd == nil || fd.Body == nil {
+					return false
+				}
+				readsName, qualifies := false, false
+				ast.Inspect(fd.Body, func(m ast.Node) bool {
+					if sel, ok := m.(*ast.SelectorExpr); ok {
+						switch sel.Sel.Name {
+						case "Name":
+							if isDefinition(sel.X) {
+								readsName = true
+							}
+						case "Namespace", "GetQualifiedName":
+							qualifies = true
+						}
+					}
+					return true
+				})
+				return readsName && !qualifies
 			case *ast.SelectorExpr:
 				return x.Sel.Name == "Name" && isDefinition(x.X)
 			case *ast.Ident:
@@ -7712,5 +7745,410 @@ func ruleSinksSharedAndVerdictsUsed(c *core.Ctx) {
 			}
 			return true
 		})
+	}
+}
+
+// H2 (C04): the current schema exists before it is copied. The C++ generator emits, per protocol, the definition of the
+// static `schema_` string and the static `previous_schemas_` vector, whose initialiser copies `schema_` for every
+// version in which the protocol did not change. Static objects of one translation unit are initialised in the order of
+// their definitions: with `previous_schemas_` first, those entries copy a string that has not been constructed — the
+// header written for an old version carries an empty schema.
+func ruleSchemaDefinedBeforeItIsCopied(c *core.Ctx) {
+	const rule = "H2"
+	c.Rule(rule, "cpp/protocols: the emission that defines `<Writer>::schema_` comes before the emission that opens the initialiser of `<Writer>::previous_schemas_`", 1)
+	n := 0
+	for _, d := range c.AllDecls() {
+		p := c.DeclPkg(d)
+		if p == nil || d.Body == nil || !strings.HasSuffix(p.PkgPath, "/internal/cpp/protocols") || c.IsTestFile(d.Pos()) {
+			continue
+		}
+		info := p.TypesInfo
+		var schemaPos, prevPos []token.Pos
+		ast.Inspect(d.Body, func(nn ast.Node) bool {
+			ce, ok := nn.(*ast.CallExpr)
+			if !ok {
+				return true
+			}
+			t, ok := emissionTemplate(info, ce)
+			if !ok || t == "" {
+				return true
+			}
+			switch {
+			case regexp.MustCompile(`std::string\s+%s::schema_\s*=`).MatchString(t):
+				schemaPos = append(schemaPos, ce.Pos())
+			case regexp.MustCompile(`%s::previous_schemas_\s*=\s*\{`).MatchString(t):
+				prevPos = append(prevPos, ce.Pos())
+			}
+			return true
+		})
+		for _, pp := range prevPos {
+			n++
+			before := false
+			for _, sp := range schemaPos {
+				if sp < pp {
+					before = true
+				}
+			}
+			c.Check(before, rule, fmt.Sprintf("%s/previous_schemas_#%d", c.FuncName(d), n), pp, "`schema_` is defined by an earlier emission of the same function",
+				"`previous_schemas_` is emitted before (or without) the definition of `schema_` it copies from: static initialisation runs in definition order, so the entries for unchanged versions are copies of an unconstructed string")
+		}
+	}
+	if n == 0 {
+		c.Undecided(rule, "anchor/previous_schemas_", 0, "the emission of previous_schemas_ was not found in cpp/protocols")
+	}
+}
+
+// A5 / A6 (C04, C15): the schema lists every definition it reaches, and tells the dimensionalities apart.
+// A5: in GetProtocolSchema the clause that handles a TypeDefinition appends it to the schema's types in a statement of
+// the clause itself — not only inside a type switch or an assertion over the kinds of definition, where a kind without a
+// case (an alias) would be traversed but never listed.
+// A6: GeneralizedType.MarshalJSON gives each dimensionality (vector, array, map, stream) its own JSON key: the keys
+// named in the clauses of its type switch (tags of wrapper struct fields, keys of map literals, string arguments of a
+// wrapping helper) are pairwise different.
+func ruleSchemaListsAndDistinguishes(c *core.Ctx) {
+	const rule5, rule6 = "A5", "A6"
+	c.Rule(rule5, "dsl.GetProtocolSchema: the `case TypeDefinition` clause of its visitor appends to a []TypeDefinition in a statement of the clause itself (unconditional on the kind of definition)", 1)
+	c.Rule(rule6, "dsl.(*GeneralizedType).MarshalJSON: the JSON keys named in the clauses for the dimensionalities are pairwise different", 4)
+	p := c.Pkg("pkg/dsl")
+	if p == nil {
+		c.Undecided(rule5, "anchor/pkg/dsl", 0, "package not loaded")
+		c.Undecided(rule6, "anchor/pkg/dsl", 0, "package not loaded")
+		return
+	}
+	info := p.TypesInfo
+	_, gps, _ := c.Func("pkg/dsl", "GetProtocolSchema")
+	if gps == nil || gps.Body == nil {
+		c.Undecided(rule5, "anchor/GetProtocolSchema", 0, "not found")
+	} else {
+		found := false
+		isDefSliceAppend := func(s ast.Stmt) bool {
+			as, ok := s.(*ast.AssignStmt)
+			if !ok || len(as.Rhs) != 1 {
+				return false
+			}
+			ce, ok := ast.Unparen(as.Rhs[0]).(*ast.CallExpr)
+			if !ok {
+				return false
+			}
+			if id, ok := ce.Fun.(*ast.Ident); !ok || id.Name != "append" {
+				return false
+			}
+			sl, ok := info.TypeOf(as.Lhs[0]).Underlying().(*types.Slice)
+			if !ok {
+				return false
+			}
+			nt := core.NamedOf(sl.Elem())
+			return nt != nil && nt.Obj().Name() == "TypeDefinition"
+		}
+		// the visitor may live in the function or in helpers it calls (same package, depth 1)
+		bodies := []*ast.BlockStmt{gps.Body}
+		ast.Inspect(gps.Body, func(nn ast.Node) bool {
+			if ce, ok := nn.(*ast.CallExpr); ok {
+				if f := core.Callee(info, ce); f != nil && f.Pkg() == p.Types {
+					if fd := c.Decl(f); fd != nil && fd.Body != nil && fd != gps {
+						bodies = append(bodies, fd.Body)
+					}
+				}
+			}
+			return true
+		})
+		for _, b := range bodies {
+			ast.Inspect(b, func(nn ast.Node) bool {
+				cc, ok := nn.(*ast.CaseClause)
+				if !ok || len(cc.List) != 1 || types.ExprString(cc.List[0]) != "TypeDefinition" {
+					return true
+				}
+				found = true
+				direct := false
+				for _, s := range cc.Body {
+					if isDefSliceAppend(s) {
+						direct = true
+					}
+					// or a call of a helper / closure that appends (named in the clause itself)
+					if es, ok := s.(*ast.ExprStmt); ok {
+						if ce, ok := es.X.(*ast.CallExpr); ok {
+							var body ast.Node
+							if f := core.Callee(info, ce); f != nil && f.Pkg() == p.Types {
+								if fd := c.Decl(f); fd != nil {
+									body = fd.Body
+								}
+							} else if id, ok := ce.Fun.(*ast.Ident); ok {
+								ast.Inspect(gps.Body, func(m ast.Node) bool {
+									if as, ok := m.(*ast.AssignStmt); ok && len(as.Lhs) == 1 && len(as.Rhs) == 1 && identObj(info, as.Lhs[0]) == identObj(info, id) {
+										if fl, ok := as.Rhs[0].(*ast.FuncLit); ok {
+											body = fl.Body
+										}
+									}
+									return true
+								})
+							}
+							if blk, ok := body.(*ast.BlockStmt); ok && blk != nil {
+								for _, hs := range blk.List {
+									if isDefSliceAppend(hs) {
+										direct = true
+									}
+								}
+							}
+						}
+					}
+				}
+				c.Check(direct, rule5, "GetProtocolSchema/case TypeDefinition", cc.Pos(), "the definition is appended by a statement of the clause itself",
+					"the clause for TypeDefinition appends to the schema's types only inside a nested switch / assertion over the kind of definition: a kind without a case is visited (its children are listed) but is itself missing from the schema — changing it does not change the schema")
+				return true
+			})
+		}
+		if !found {
+			c.Undecided(rule5, "GetProtocolSchema/case TypeDefinition", gps.Pos(), "no `case TypeDefinition` clause found in GetProtocolSchema or its helpers")
+		}
+	}
+	// A6
+	var mj *ast.FuncDecl
+	for _, d := range c.AllDecls() {
+		if c.DeclPkg(d) == p && d.Name.Name == "MarshalJSON" && d.Recv != nil && strings.Contains(types.ExprString(d.Recv.List[0].Type), "GeneralizedType") {
+			mj = d
+		}
+	}
+	if mj == nil || mj.Body == nil {
+		c.Undecided(rule6, "anchor/GeneralizedType.MarshalJSON", 0, "not found")
+		return
+	}
+	keysOf := func(cc *ast.CaseClause) []string {
+		var keys []string
+		for _, s := range cc.Body {
+			ast.Inspect(s, func(m ast.Node) bool {
+				switch x := m.(type) {
+				case *ast.CompositeLit:
+					t := info.TypeOf(x)
+					if t == nil {
+						return true
+					}
+					if st, ok := t.Underlying().(*types.Struct); ok && st.NumFields() == 1 {
+						if _, inner := st.Field(0).Type().Underlying().(*types.Struct); inner {
+							if tag := reflect.StructTag(st.Tag(0)).Get("json"); tag != "" {
+								keys = append(keys, strings.Split(tag, ",")[0])
+							}
+						}
+					}
+					if _, ok := t.Underlying().(*types.Map); ok {
+						for _, e := range x.Elts {
+							if kv, ok := e.(*ast.KeyValueExpr); ok {
+								if tv, ok := info.Types[kv.Key]; ok && tv.Value != nil && tv.Value.Kind() == constant.String {
+									keys = append(keys, constant.StringVal(tv.Value))
+								}
+							}
+						}
+					}
+				case *ast.CallExpr:
+					if f := core.Callee(info, x); f != nil && f.Pkg() == p.Types && len(x.Args) >= 2 {
+						if tv, ok := info.Types[x.Args[0]]; ok && tv.Value != nil && tv.Value.Kind() == constant.String {
+							keys = append(keys, constant.StringVal(tv.Value))
+						}
+					}
+				}
+				return true
+			})
+		}
+		return keys
+	}
+	seen := map[string]string{}
+	n := 0
+	ast.Inspect(mj.Body, func(nn ast.Node) bool {
+		ts, ok := nn.(*ast.TypeSwitchStmt)
+		if !ok {
+			return true
+		}
+		for _, cl := range ts.Body.List {
+			cc := cl.(*ast.CaseClause)
+			if len(cc.List) != 1 {
+				continue
+			}
+			kind := types.ExprString(cc.List[0])
+			if kind == "nil" {
+				continue
+			}
+			keys := keysOf(cc)
+			if len(keys) == 0 {
+				continue
+			}
+			n++
+			k := keys[0]
+			if other, dup := seen[k]; dup && other != kind {
+				c.Bad(rule6, "GeneralizedType.MarshalJSON/"+kind, cc.Pos(), fmt.Sprintf("%s is written under the JSON key %q, which %s uses too: the two dimensionalities have the same schema text, a reader for one accepts data of the other", kind, k, other))
+			} else {
+				seen[k] = kind
+				c.OK(rule6, "GeneralizedType.MarshalJSON/"+kind, cc.Pos(), fmt.Sprintf("key %q", k))
+			}
+		}
+		return false
+	})
+	if n == 0 {
+		c.Undecided(rule6, "GeneralizedType.MarshalJSON/keys", mj.Pos(), "no JSON keys found in the clauses of the type switch")
+	}
+}
+
+// T10 (C20): a failed regeneration changes no watch. generateInWatchMode returns the directories to watch, or nil when
+// the model does not validate at the moment. In the function that receives that result, every call that changes the
+// watch set with a computed argument ((*fsnotify.Watcher).Add / Remove) runs only where the result is known to be
+// non-nil (inside `if dirs != nil …`, or in a loop over dirs itself): otherwise one invalid intermediate save unwatches
+// the imported packages and later edits there are never seen.
+func ruleWatchSetUnchangedOnFailure(c *core.Ctx) {
+	const rule = "T10"
+	c.Rule(rule, "internal/cmd: in the function that holds the result of generateInWatchMode, every Watcher.Add/Remove with a computed argument is guarded by a non-nil test of that result (or ranges over it)", 1)
+	giw, _, _ := c.Func("internal/cmd", "generateInWatchMode")
+	if giw == nil {
+		c.Undecided(rule, "anchor/internal/cmd.generateInWatchMode", 0, "anchor function not found")
+		return
+	}
+	n := 0
+	for _, d := range c.AllDecls() {
+		p := c.DeclPkg(d)
+		if p == nil || p.PkgPath != core.Mod+"/internal/cmd" || d.Body == nil || c.IsTestFile(d.Pos()) {
+			continue
+		}
+		info := p.TypesInfo
+		// variables that hold the result of generateInWatchMode
+		holders := map[types.Object]bool{}
+		ast.Inspect(d.Body, func(nn ast.Node) bool {
+			if as, ok := nn.(*ast.AssignStmt); ok && len(as.Lhs) == 1 && len(as.Rhs) == 1 {
+				if ce, ok := ast.Unparen(as.Rhs[0]).(*ast.CallExpr); ok {
+					if f := core.Callee(info, ce); f != nil && f.Origin() == giw {
+						if o := identObj(info, as.Lhs[0]); o != nil {
+							holders[o] = true
+						}
+					}
+				}
+			}
+			return true
+		})
+		if len(holders) == 0 {
+			continue
+		}
+		mentionsHolderNonNil := func(cond ast.Expr) bool {
+			ok := false
+			ast.Inspect(cond, func(m ast.Node) bool {
+				be, isBin := m.(*ast.BinaryExpr)
+				if !isBin {
+					return true
+				}
+				if be.Op == token.NEQ && (isNilIdent(be.Y) && holders[identObj(info, be.X)] || isNilIdent(be.X) && holders[identObj(info, be.Y)]) {
+					ok = true
+				}
+				if be.Op == token.GTR {
+					if ce, isCall := ast.Unparen(be.X).(*ast.CallExpr); isCall && len(ce.Args) == 1 {
+						if id, isId := ce.Fun.(*ast.Ident); isId && id.Name == "len" && holders[identObj(info, ce.Args[0])] {
+							if bl, isLit := ast.Unparen(be.Y).(*ast.BasicLit); isLit && bl.Value == "0" {
+								ok = true
+							}
+						}
+					}
+				}
+				return true
+			})
+			return ok
+		}
+		// `if dirs == nil || … { return }`: what follows runs with a non-nil result
+		leavesWhenNil := func(s ast.Stmt) bool {
+			ifs, ok := s.(*ast.IfStmt)
+			if !ok || ifs.Else != nil || !goReturns(ifs.Body.List) {
+				return false
+			}
+			var disj func(e ast.Expr) bool
+			disj = func(e ast.Expr) bool {
+				be, ok := ast.Unparen(e).(*ast.BinaryExpr)
+				if !ok {
+					return false
+				}
+				if be.Op == token.LOR {
+					return disj(be.X) || disj(be.Y)
+				}
+				return be.Op == token.EQL && (isNilIdent(be.Y) && holders[identObj(info, be.X)] || isNilIdent(be.X) && holders[identObj(info, be.Y)])
+			}
+			return disj(ifs.Cond)
+		}
+		// a helper of the package that changes the watch set with a computed argument
+		changesWatches := func(f *types.Func) bool {
+			fd := c.Decl(f)
+			if fd == nil || fd.Body == nil {
+				return false
+			}
+			hit := false
+			ast.Inspect(fd.Body, func(m ast.Node) bool {
+				if ce, ok := m.(*ast.CallExpr); ok && len(ce.Args) == 1 {
+					if g := core.Callee(info, ce); g != nil {
+						fn := core.FullName(g)
+						if strings.HasSuffix(fn, "fsnotify.Watcher).Add") || strings.HasSuffix(fn, "fsnotify.Watcher).Remove") {
+							if tv, ok := info.Types[ce.Args[0]]; !ok || tv.Value == nil {
+								hit = true
+							}
+						}
+					}
+				}
+				return true
+			})
+			return hit
+		}
+		var walk func(nn ast.Node, guarded bool)
+		walk = func(nn ast.Node, guarded bool) {
+			ast.Inspect(nn, func(m ast.Node) bool {
+				switch x := m.(type) {
+				case *ast.BlockStmt:
+					g := guarded
+					for _, st := range x.List {
+						walk(st, g)
+						if leavesWhenNil(st) {
+							g = true
+						}
+					}
+					return false
+				case *ast.IfStmt:
+					if x.Init != nil {
+						walk(x.Init, guarded)
+					}
+					walk(x.Body, guarded || mentionsHolderNonNil(x.Cond))
+					if x.Else != nil {
+						walk(x.Else, guarded)
+					}
+					return false
+				case *ast.RangeStmt:
+					walk(x.Body, guarded || holders[identObj(info, x.X)])
+					return false
+				case *ast.CallExpr:
+					f := core.Callee(info, x)
+					if f != nil && f.Pkg() == p.Types && changesWatches(f) {
+						passesHolder := false
+						for _, a := range x.Args {
+							if holders[identObj(info, a)] {
+								passesHolder = true
+							}
+						}
+						if passesHolder {
+							n++
+							c.Check(guarded, rule, fmt.Sprintf("%s/%s#%d", c.FuncName(d), f.Name(), n), x.Pos(), "only where the result of the generation is non-nil",
+								"the watch set is changed (through "+f.Name()+") also when the generation failed and returned no directories")
+							return true
+						}
+					}
+					if f == nil || len(x.Args) != 1 {
+						return true
+					}
+					fn := core.FullName(f)
+					if !strings.HasSuffix(fn, "fsnotify.Watcher).Add") && !strings.HasSuffix(fn, "fsnotify.Watcher).Remove") {
+						return true
+					}
+					if tv, ok := info.Types[x.Args[0]]; ok && tv.Value != nil {
+						return true // a constant directory (".")
+					}
+					n++
+					key := fmt.Sprintf("%s/%s#%d", c.FuncName(d), f.Name(), n)
+					c.Check(guarded, rule, key, x.Pos(), "only where the result of the generation is non-nil",
+						"the watch set is changed ("+f.Name()+") also when the generation failed and returned no directories: after one invalid save the imported packages are no longer watched")
+				}
+				return true
+			})
+		}
+		walk(d.Body, false)
+	}
+	if n == 0 {
+		c.Undecided(rule, "anchor/watch set changes", 0, "no Watcher.Add/Remove with a computed argument next to the result of generateInWatchMode")
 	}
 }
